@@ -213,8 +213,7 @@ def rule_c(ctx):
                              f"    mask_i = {gi} > self._threshold_lower[i]\n"
                              "    if self._threshold_upper is not None:\n"
                              f"        mask_i = np.logical_and(mask_i, {gi} < self._threshold_upper[i])\n"
-                             "    roi = np.logical_and(mask_i, self._labels == label)\n"
-                             "    total[roi] = True") \
+                             "    total[np.logical_and(mask_i, self._labels == label)] = True") \
             and am.has(g.node, "total = np.zeros(self._labels.shape[:2], dtype=bool)") is not None and am.has(g.node, "return total") is not None
     ctx.ob(R, g.qname, "label i uses thresholds i and is restricted to labels == label", ok, str(am.show()), g.node)
     call = m.func(STM, "StaticThresholdModel.__call__")
